@@ -155,3 +155,91 @@ Definition save_via (compress : list Z -> list Z) (r : route) (file : list Z) : 
   match r with RFilename true => compress file | _ => file end.
 Definition load_via (decompress : list Z -> list Z) (r : route) (stored : list Z) : list Z :=
   match r with RFilename true => decompress stored | _ => stored end.
+
+(* ------------------------------------------------------------------ the "no scaling" decision
+   arraywriters.py: ArrayWriter.scaling_needed, SlopeArrayWriter.scaling_needed (inherited by
+   SlopeInterArrayWriter), make_array_writer's class choice, calc_scale's reset values, and the
+   branch array_to_file takes for slope 1 / intercept 0.  np.can_cast comes from the regenerated
+   table (C01/Tables.v); integer ranges are computed from kind and width. *)
+Inductive dkind := DBool | DInt | DUInt | DFloat | DComplex | DVoid.
+Record ndt := mkDt { dt_id : Z; dt_kind : dkind; dt_w : nat }.      (* dt_id identifies the dtype *)
+
+Definition int_min (t : ndt) : Z :=
+  match dt_kind t with DInt => (- 2 ^ (8 * Z.of_nat (dt_w t) - 1))%Z | _ => 0%Z end.
+Definition int_max (t : ndt) : Z :=
+  match dt_kind t with
+  | DInt => (2 ^ (8 * Z.of_nat (dt_w t) - 1) - 1)%Z
+  | DUInt => (2 ^ (8 * Z.of_nat (dt_w t)) - 1)%Z
+  | DBool => 1%Z
+  | _ => 0%Z
+  end.
+Definition is_intlike (t : ndt) : bool := match dt_kind t with DBool | DInt | DUInt => true | _ => false end.
+
+(* what scaling_needed looks at in the data: size, finite_range() and its two special values *)
+Record dinfo := mkInfo { size0 : bool; allzero : bool; nofinite : bool; imn : Z; imx : Z }.
+
+Inductive decision := NoScale | Scale | ErrWriter.
+Inductive wclass := WPlain | WSlope | WSlopeInter.
+
+Fixpoint mem_pair (a b : Z) (l : list (Z * Z)) : bool :=
+  match l with [] => false | (x, y) :: r => (Z.eqb x a && Z.eqb y b) || mem_pair a b r end.
+
+(* ArrayWriter.scaling_needed *)
+Definition base_scaling_needed (cc : list (Z * Z)) (m d : ndt) (i : dinfo) : decision :=
+  match dt_kind m, dt_kind d with
+  | DVoid, _ | _, DVoid => if Z.eqb (dt_id m) (dt_id d) then NoScale else ErrWriter
+  | _, _ =>
+    if mem_pair (dt_id m) (dt_id d) cc then NoScale                     (* np.can_cast *)
+    else match dt_kind d with
+    | DComplex => NoScale
+    | _ =>
+      match dt_kind m with
+      | DComplex => ErrWriter
+      | _ =>
+        match dt_kind d with
+        | DFloat => NoScale
+        | _ =>
+          if size0 i then NoScale
+          else if allzero i then NoScale
+          else match dt_kind m with
+               | DFloat => Scale
+               | _ => if (int_min d <=? imn i)%Z && (imx i <=? int_max d)%Z then NoScale else Scale
+               end
+        end
+      end
+    end
+  end.
+(* SlopeArrayWriter.scaling_needed: data without any finite value are not rescaled *)
+Definition scaling_needed (cc : list (Z * Z)) (c : wclass) (m d : ndt) (i : dinfo) : decision :=
+  match c with
+  | WPlain => base_scaling_needed cc m d i
+  | _ => match base_scaling_needed cc m d i with
+         | Scale => if nofinite i then NoScale else Scale
+         | r => r
+         end
+  end.
+
+(* make_array_writer(data, out_type, has_slope, has_intercept) *)
+Definition make_array_writer (has_slope has_inter : bool) : option wclass :=
+  if has_inter && negb has_slope then None
+  else Some (if has_inter then WSlopeInter else if has_slope then WSlope else WPlain).
+
+(* reset() + calc_scale(): (slope, intercept) when no scaling is needed; the scaled case is C02's *)
+Definition writer_params (cc : list (Z * Z)) (c : wclass) (m d : ndt) (i : dinfo) : option (Z * Z) :=
+  match scaling_needed cc c m d i with NoScale => Some (1, 0)%Z | _ => None end.
+
+(* the branch of array_to_file for divslope = 1, intercept = 0, no thresholds *)
+Inductive wroute := RDirect | RFloatOut | RClipCast | RScalePipeline.
+Definition write_route (cc : list (Z * Z)) (m d : ndt) : wroute :=
+  match dt_kind m with
+  | DVoid => RDirect
+  | _ =>
+    if mem_pair (dt_id m) (dt_id d) cc then RDirect
+    else match dt_kind d with
+         | DFloat | DComplex => RFloatOut
+         | _ => if is_intlike m then RClipCast else RScalePipeline
+         end
+  end.
+(* RClipCast: np.clip(slab, max(mn_in, mn_out), min(mx_in, mx_out)).astype(out) *)
+Definition clip_cast (m d : ndt) (v : Z) : Z :=
+  Z.min (Z.max v (Z.max (int_min m) (int_min d))) (Z.min (int_max m) (int_max d)).
